@@ -77,6 +77,22 @@ CLAIMS = {
                 'unrequested replies (C06); serial reuse across 32-bit wrap-around.',
         'design': 'DESIGN.md section 3, C09',
     },
+    'C06': {
+        'technique': 'static analysis: scan-shape typestate of the evaluators, context-order typestate, '
+                     'attribute-coverage tables (parser / record / evaluator / optimiser), exhaustive '
+                     'enumeration of the extracted boolean skip logic against the documented table and of the '
+                     'optimiser predicate against the evaluator, must-pass-through of the policy gate',
+        'text': 'Decides the last-match-wins/default-deny shape of the three evaluators, the context order '
+                'default/group/user/console/mandatory, that every rule attribute is parsed, evaluated and '
+                'respected by the optimiser (whose catch-all predicate is enumerated against the evaluator\'s own '
+                'skip logic), that the reply/eavesdrop skip logic of both evaluators equals the documented table '
+                '(2^5 x 2 assignments), and that no staging site, nor activation, bypasses the gate, which consults '
+                'the sender\'s send rules and the recipient\'s receive rules.',
+        'note': NOT_DECIDED_COMMON + 'Not decided: string matching of attribute values, registry-dependent '
+                'destination/sender matching, broadcast/fd-range value semantics beyond coverage. The documented '
+                'table in rules/C06.py (spec_reply) is transcribed from doc/dbus-daemon.1.xml.in.',
+        'design': 'DESIGN.md section 3, C06',
+    },
 }
 
 NOT_APPLICABLE = {
